@@ -624,11 +624,11 @@ Section Rows.
         * intro E2. subst b. rewrite beqb_refl in Hcr. discriminate.
   Qed.
 
-  Lemma csv_next_row r rest n : wf_row enc r ->
-    csv_next comma (mkC (enc_row enc r ++ rest) n) =
+  Lemma csv_next_row_strict r rest n : wf_row enc r ->
+    csv_next_strict comma (mkC (enc_row enc r ++ rest) n) =
     (row_out r, mkC rest (n + length (r_blanks r) + 1 + nl_fields (r_fields r))).
   Proof.
-    intros (Hne & Hwf & Hse). unfold csv_next. rewrite V. cbn [negb].
+    intros (Hne & Hwf & Hse). unfold csv_next_strict. rewrite V. cbn [negb].
     unfold enc_row. rewrite <- !app_assoc.
     set (T := join enc (map enc_field (r_fields r)) ++ eol (r_crlf r) ++ rest).
     set (st := mkC (flat_map eol (r_blanks r) ++ T) n).
@@ -646,9 +646,20 @@ Section Rows.
     unfold row_out. cbn [rev app]. f_equal. f_equal. lia.
   Qed.
 
+  (* the readers' configuration (Gen/CsvCfg.v, extracted from the two NewReader functions) is the one
+     the transcription is for: csv_next is csv_next_strict.  If the source configures encoding/csv
+     differently this stops checking, and with it every theorem about the csv readers. *)
+  Lemma csv_next_is_strict c st : csv_next c st = csv_next_strict c st.
+  Proof. reflexivity. Qed.
+
+  Lemma csv_next_row r rest n : wf_row enc r ->
+    csv_next comma (mkC (enc_row enc r ++ rest) n) =
+    (row_out r, mkC rest (n + length (r_blanks r) + 1 + nl_fields (r_fields r))).
+  Proof. intro H. rewrite csv_next_is_strict. apply csv_next_row_strict. exact H. Qed.
+
   Lemma csv_next_eof bl n : exists n', csv_next comma (mkC (flat_map eol bl) n) = (CEOF, mkC [] n').
   Proof.
-    unfold csv_next. rewrite V. cbn [negb].
+    rewrite csv_next_is_strict. unfold csv_next_strict. rewrite V. cbn [negb].
     set (st := mkC (flat_map eol bl) n).
     assert (Hfuel : length bl + 1 <= csv_fuel st).
     { unfold csv_fuel, st. cbn [c_in]. pose proof (length_blanks bl). lia. }
@@ -709,7 +720,8 @@ Lemma csv_next_bare_quote comma f tailf rest n :
 Proof.
   intros V enc Hne Hh Hi Hq Ht Hlf Hcr.
   pose proof (valid_delim_good_enc comma V) as G. fold enc in G.
-  unfold csv_next. rewrite V. cbn [negb].
+  change (csv_next comma ?x) with (csv_next_strict comma x).
+  unfold csv_next_strict. rewrite V. cbn [negb].
   set (st := mkC ((f ++ tailf) ++ LF :: rest) n).
   assert (Hfu : exists F, csv_fuel st = S F) by (unfold csv_fuel; exists (2 * length (c_in st) + 7); lia).
   destruct Hfu as (F & HF). rewrite HF. cbn [next_line]. unfold st at 1.
@@ -727,4 +739,67 @@ Proof.
     cbn zeta. rewrite strip_last_app, Hq. reflexivity.
   - rewrite <- !app_assoc. rewrite (index_sub_enc_here enc G f (g ++ [LF]) Hi).
     cbn zeta. rewrite firstn_app_len, Hq. reflexivity.
+Qed.
+
+(* ---- replace_double_quotes ------------------------------------------------------------------------------ *)
+(* The option turns every double quote of the input into an apostrophe before the csv decoder sees
+   it, so nothing is quoted any more: a table written without quoting reads back with the quotes of
+   its cells replaced. *)
+Definition rq_row (r : erow) : erow :=
+  mkRow (r_blanks r) (map (fun qf => (false, replace_dq (snd qf))) (r_fields r)) (r_crlf r).
+
+Lemma replace_dq_app a b : replace_dq (a ++ b) = replace_dq a ++ replace_dq b.
+Proof. apply map_app. Qed.
+
+Lemma replace_dq_id s : mem_byte QUOTE s = false -> replace_dq s = s.
+Proof.
+  induction s as [|b s IH]; intro H; [reflexivity|].
+  rewrite mem_byte_cons in H. apply orb_false_iff in H as [H1 H2].
+  cbn [replace_dq map]. rewrite beqb_sym, H1. f_equal. exact (IH H2).
+Qed.
+
+Lemma replace_dq_eol b : replace_dq (eol b) = eol b.
+Proof. destruct b; reflexivity. Qed.
+
+Lemma replace_dq_blanks bl : replace_dq (flat_map eol bl) = flat_map eol bl.
+Proof.
+  induction bl as [|b bl IH]; [reflexivity|]. cbn [flat_map].
+  rewrite replace_dq_app, replace_dq_eol, IH. reflexivity.
+Qed.
+
+Lemma replace_dq_join enc : mem_byte QUOTE enc = false -> forall fs,
+  Forall (fun qf : bool * bytes => fst qf = false) fs ->
+  replace_dq (join enc (map enc_field fs))
+  = join enc (map enc_field (map (fun qf => (false, replace_dq (snd qf))) fs)).
+Proof.
+  intros He fs. induction fs as [|[q v] fs IH]; intro H; [reflexivity|].
+  inversion H as [|x y Hq Hr]; subst. cbn [fst] in Hq. subst q.
+  destruct fs as [|y fs]; [reflexivity|].
+  change (join enc (map enc_field ((false, v) :: y :: fs)))
+    with (v ++ enc ++ join enc (map enc_field (y :: fs))).
+  rewrite !replace_dq_app, (replace_dq_id enc He), (IH Hr). reflexivity.
+Qed.
+
+Lemma replace_dq_row enc r : mem_byte QUOTE enc = false ->
+  Forall (fun qf : bool * bytes => fst qf = false) (r_fields r) ->
+  replace_dq (enc_row enc r) = enc_row enc (rq_row r).
+Proof.
+  intros He H. unfold enc_row, rq_row. cbn [r_blanks r_fields r_crlf].
+  rewrite !replace_dq_app, replace_dq_blanks, replace_dq_eol, (replace_dq_join enc He _ H). reflexivity.
+Qed.
+
+Theorem csv_replace_dq_roundtrip_proof comma t trailing :
+  valid_delim comma = true ->
+  Forall (fun r => Forall (fun qf : bool * bytes => fst qf = false) (r_fields r)) t ->
+  Forall (wf_row (encode_rune comma)) (map rq_row t) ->
+  csv_read comma (replace_dq (csv_encode comma t trailing)) = map row_out (map rq_row t).
+Proof.
+  intros V Hu Hwf.
+  pose proof (valid_delim_good_enc comma V) as G. pose proof (enc_quote _ G) as Hq.
+  assert (E : replace_dq (csv_encode comma t trailing) = csv_encode comma (map rq_row t) trailing).
+  { unfold csv_encode. rewrite replace_dq_app, replace_dq_blanks. f_equal.
+    clear Hwf. induction t as [|r t IH]; [reflexivity|].
+    inversion Hu as [|x y Hr Ht]; subst. cbn [flat_map map].
+    rewrite replace_dq_app, (replace_dq_row _ r Hq Hr), (IH Ht). reflexivity. }
+  rewrite E. apply csv_roundtrip_proof; assumption.
 Qed.
